@@ -8,10 +8,12 @@ from pycardano import RedeemerMap
 from pycardano.address import Address, AddressType
 from pycardano.backend.base import ChainContext
 from pycardano.certificate import (
+    AuthCommitteeHotCertificate,
     Certificate,
     PoolRegistration,
     PoolRetirement,
     RegDRepCert,
+    ResignCommitteeColdCertificate,
     StakeAndVoteDelegation,
     StakeCredential,
     StakeDelegation,
@@ -23,6 +25,7 @@ from pycardano.certificate import (
     StakeRegistrationAndVoteDelegation,
     StakeRegistrationConway,
     UnregDRepCertificate,
+    UpdateDRepCertificate,
     VoteDelegation,
 )
 from pycardano.coinselection import (
@@ -908,10 +911,17 @@ class TransactionBuilder:
                     ),
                 ):
                     _check_and_add_vkey(cert.stake_credential)
-                elif isinstance(cert, RegDRepCert):
+                elif isinstance(
+                    cert, (RegDRepCert, UnregDRepCertificate, UpdateDRepCertificate)
+                ):
                     _check_and_add_vkey(cert.drep_credential)
+                elif isinstance(
+                    cert, (AuthCommitteeHotCertificate, ResignCommitteeColdCertificate)
+                ):
+                    _check_and_add_vkey(cert.committee_cold_credential)
                 elif isinstance(cert, PoolRegistration):
                     results.add(cert.pool_params.operator)
+                    results.update(cert.pool_params.pool_owners)
                 elif isinstance(cert, PoolRetirement):
                     results.add(cert.pool_keyhash)
         return results
